@@ -226,6 +226,8 @@ fn main() {
     }
     let code = match property.as_str() {
         "C34" => run_c34(&tier, &mut out),
+        "C13" => vmc::c13::run_c13(&tier, &mut out),
+        "C35" => vmc::c13::run_c35(&tier, &mut out),
         _ => {
             let _ = writeln!(out, "MACHINERY-ERROR unknown property {property} for apimc");
             2
